@@ -96,6 +96,15 @@ func (p *Pool) CalcJoinPoolNoSwapShares(tokensIn sdk.Coins) (numShares sdkmath.I
 	if tokensIn.Len() != len(p.PoolAssets) {
 		return sdkmath.ZeroInt(), sdk.NewCoins(), errors.New("no-swap joins require LP'ing with all assets in pool")
 	}
+	// ... and that it names every asset exactly once: a list that repeats one denom has the right length but
+	// leaves another asset out, and the ratio maths below would mint shares for a one-sided deposit
+	seenDenoms := make(map[string]bool, len(tokensIn))
+	for _, coin := range tokensIn {
+		if seenDenoms[coin.Denom] {
+			return sdkmath.ZeroInt(), sdk.NewCoins(), errors.New("no-swap joins require LP'ing with all assets in pool")
+		}
+		seenDenoms[coin.Denom] = true
+	}
 
 	// execute a no-swap join with as many tokens as possible given a perfect ratio:
 	// * numShares is how many shares are perfectly matched.
